@@ -1,7 +1,7 @@
 #!/bin/bash
 # usage: tools/store_seed.sh <prop> <out-dir> <n> "<needs>"   — keep a confirmed sub-agent change under /verif/seeded/
 prop=$1; out=$2; n=$3; needs=$4
-d=/verif/seeded/$prop-$n
+d=/verif/seeded/$prop-${SEEDNO:-$n}
 mkdir -p $d
 cp $out/patch$n.diff $d/patch.diff
 cp $out/demo${n}_test.go $d/demo_test.go.txt
